@@ -200,13 +200,9 @@ def _tname_chars():
     return list(range(128)) + extra
 
 
-def t_tname(F, R):
-    """TopicName::is_invalid(value) == (byte length > 65535) || value contains one of '+', '#', U+0000: evaluated on abstract
-    names whose byte length is symbolic (every comparison made on it is logged and both sides of every constant are tried) and
-    whose characters are [c], ['a', c] and [c, 'a'] for every ASCII character c and a set of adversarial non-ASCII characters --
-    whatever way the scan is written (str::contains, chars().any, a byte loop, a table)."""
-    fid = "common::types::TopicName::is_invalid"
-    state = {}
+def _name_hook(F, state, pe_box):
+    """call hook that models a `&str` argument (Sym('arg0')) as an abstract name: state['chars'] are its characters, state['len']
+    the witness of its symbolic byte length (comparisons are logged in state['log'])."""
 
     def utf8(cs):
         out = []
@@ -261,7 +257,18 @@ def t_tname(F, R):
         if name in ("deref", "as_ref", "as_str", "borrow"):
             return args[0]
         raise Undecided("operation %s on the name" % (d or name))
+    return hook
+
+
+def t_tname(F, R):
+    """TopicName::is_invalid(value) == (byte length > 65535) || value contains one of '+', '#', U+0000: evaluated on abstract
+    names whose byte length is symbolic (every comparison made on it is logged and both sides of every constant are tried) and
+    whose characters are [c], ['a', c] and [c, 'a'] for every ASCII character c and a set of adversarial non-ASCII characters --
+    whatever way the scan is written (str::contains, chars().any, a byte loop, a table)."""
+    fid = "common::types::TopicName::is_invalid"
+    state = {}
     pe_box = [None]
+    hook = _name_hook(F, state, pe_box)
     consts = set()
     bad = []
     nev = 0
@@ -295,10 +302,52 @@ def t_tname(F, R):
     R.check(not bad, "T-tname", "length-or-contains",
             "TopicName::is_invalid is not `byte length > 65535 || contains one of + # NUL`: %d disagreements, e.g. length %s, characters %r -> %s" % (
                 (len(bad),) + (bad[0] if bad else ("", "", ""))), where=fid)
-    R.check(S.TOPIC_MAX_BYTES in consts, "T-tname", "length-bound", "TopicName::is_invalid never compares the byte length with %d (constants seen: %s)" % (
+    R.check(S.TOPIC_MAX_BYTES in consts or S.TOPIC_MAX_BYTES + 1 in consts, "T-tname", "length-bound", "TopicName::is_invalid never compares the byte length with %d (constants seen: %s)" % (
         S.TOPIC_MAX_BYTES, sorted(consts)), where=fid)
     R.sample({"rule": "T-tname", "breakpoints": sorted(consts), "evaluations": nev})
     R.floor("T-tname", "evaluations", nev, 300)
+
+
+def t_flen(F, R):
+    """TopicFilter::is_invalid refuses every text longer than 65,535 bytes (the accessors' cached separator index is a u16 byte
+    offset, so a longer text that is accepted is split at a wrapped index): evaluated on harmless texts whose byte length is
+    symbolic; every comparison made on the length is logged and both sides of every constant are tried."""
+    fid = "common::types::TopicFilter::is_invalid"
+    if fid not in F.fns:
+        raise AnchorLost(fid)
+    state = {}
+    pe_box = [None]
+    hook = _name_hook(F, state, pe_box)
+    consts, bad, nev = set(), [], 0
+    texts = ["a", "$share/g/t", "a/+/#"]
+    todo = {1, 16, S.TOPIC_MAX_BYTES - 1, S.TOPIC_MAX_BYTES, S.TOPIC_MAX_BYTES + 1, 3 * S.TOPIC_MAX_BYTES}
+    done = set()
+    while todo:
+        w = todo.pop()
+        if w in done or w < 1:
+            continue
+        done.add(w)
+        for text in texts:
+            state.update({"len": w, "log": [], "chars": [ord(c) for c in text]})
+            pe = PE(F, call_hook=hook, fuel=4000)
+            pe_box[0] = pe
+            try:
+                r = pe.call_fn(fid, [Sym("arg0")])
+            except Undecided as e:
+                raise AnchorLost("TopicFilter::is_invalid cannot be evaluated: %s" % e)
+            nev += 1
+            inv = r.items[0] if isinstance(r, Tup) and len(r.items) == 2 else None
+            if inv is not (w > S.TOPIC_MAX_BYTES):
+                bad.append((w, text, inv))
+            for _op, k in state["log"]:
+                if k not in consts:
+                    consts.add(k)
+                    todo |= {k - 1, k, k + 1}
+    R.check(not bad, "T-flen", "length",
+            "TopicFilter::is_invalid does not refuse exactly the texts longer than 65535 bytes: byte length %s, text %r -> invalid=%s" % (
+                bad[0] if bad else ("", "", "")), where=fid)
+    R.sample({"rule": "T-flen", "breakpoints": sorted(consts), "evaluations": nev})
+    R.floor("T-flen", "evaluations", nev, 18)
 
 
 def _char_set(F, pred):
